@@ -117,6 +117,7 @@ type Scenario struct {
 	Clients []Client                `json:"clients,omitempty"`
 	// options
 	OrderedShutdown bool     `json:"ordered_shutdown,omitempty"`
+	ViaCmd          bool     `json:"via_cmd,omitempty"` // run through the binary's headless entry point (installs its signal handler)
 	ToRun           []string `json:"to_run,omitempty"`
 	NoDeps          bool     `json:"no_deps,omitempty"`
 	Namespaces      []string `json:"namespaces,omitempty"`
